@@ -107,12 +107,18 @@ pub fn run_cli(dir: &Path, args: &[String], hash_seed: u64, sched: Option<SchedC
 
 /// `stdout_closed`: fd 1 is a pipe whose read end is already closed (every write is EPIPE).
 pub fn run_cli_opts(dir: &Path, args: &[String], hash_seed: u64, sched: Option<SchedCfg>, stdout_closed: bool) -> CliOutcome {
+  run_cli_full(dir, args, hash_seed, sched, stdout_closed, None)
+}
+
+/// `stdin`: bytes the command finds on fd 0 (for `--stdin`)
+pub fn run_cli_full(dir: &Path, args: &[String], hash_seed: u64, sched: Option<SchedCfg>, stdout_closed: bool, stdin: Option<Vec<u8>>) -> CliOutcome {
   std::env::set_current_dir(dir).expect("chdir sandbox");
   hashseam::set_hash_seed(hash_seed);
   let cap_dir = scratch_root();
   let _ = std::fs::create_dir_all(&cap_dir);
   let out_path = cap_dir.join("stdout.cap");
   let err_path = cap_dir.join("stderr.cap");
+  let in_path = cap_dir.join("stdin.dat");
   let args: Vec<String> = args.to_vec();
   let sched = sched.map(|c| Arc::new(Sched::new(c)));
   let sched2 = sched.clone();
@@ -123,6 +129,15 @@ pub fn run_cli_opts(dir: &Path, args: &[String], hash_seed: u64, sched: Option<S
       let _ = std::io::stdout().flush();
       let cap_out = if stdout_closed { FdCapture::start_closed_pipe(1, &out_path) } else { FdCapture::start(1, &out_path) };
       let cap_err = FdCapture::start(2, &err_path);
+      let saved_stdin = stdin.as_ref().map(|bytes| {
+        use std::os::fd::AsRawFd;
+        let p = in_path.clone();
+        std::fs::write(&p, bytes).expect("stdin file");
+        let f = std::fs::File::open(&p).expect("stdin file");
+        let saved = unsafe { libc::dup(0) };
+        unsafe { libc::dup2(f.as_raw_fd(), 0) };
+        saved
+      });
       if let Some(s) = &sched2 {
         s.begin_consumer();
         ast_grep::verif::install(s.clone());
@@ -136,6 +151,12 @@ pub fn run_cli_opts(dir: &Path, args: &[String], hash_seed: u64, sched: Option<S
       let _ = std::io::stdout().flush();
       let stdout = cap_out.finish();
       let stderr = cap_err.finish();
+      if let Some(saved) = saved_stdin {
+        unsafe {
+          libc::dup2(saved, 0);
+          libc::close(saved);
+        }
+      }
       let (result, consumer_panic) = match r {
         Ok(Ok(())) => (Ok(()), None),
         Ok(Err(e)) => (Err(format!("{e}")), None),
